@@ -15,7 +15,7 @@ func init() {
 	property("C02",
 		"Static conformance of the condition mechanism: (a) the operator negation table is the De Morgan / comparison-complement table and an involution; (b) var comparisons render goto_if_<cc> for exactly the accepted operator set, closed under negation, with compare vs compare_var_to_value chosen by the value() marker; (c) flag / defeated comparisons branch on 'set' exactly for (==,TRUE) or (!=,FALSE); (d) the leaf defaults stored by the parser for bare, negated and explicit forms; (e) the short-circuit wiring of leaf / && / || chunks (value-origin templates); (f) binary operators stored in the AST are && or || (or their negation) of the token that was tested; (g) the precedence shape: the right operand of && is a single operand, continuation goes through the right-side parser, and the right-side parser is only entered when more than one operand is allowed; (h) negation is distributed to every sub-expression, leaf and operator exactly under the negated flag. Guards of the negation clauses are compared by equivalence, not membership (C02.h, C02.f); chunk fields are written only under construction (C02.i).",
 		[]string{"oracle: README operator semantics and the goto_if_* mnemonics of the decomp script macros", "scheme argument of DESIGN §4 C02; the recursive descent as a whole accepting exactly the documented grammar is not decided"},
-		"C02.a", "C02.b", "C02.c", "C02.d", "C02.e", "C02.f", "C02.g", "C02.h", "C02.i", "C01.f", "C01.e", "C01.h")
+		"C02.a", "C02.b", "C02.c", "C02.d", "C02.e", "C02.f", "C02.g", "C02.h", "C02.i", "C01.f", "C01.e", "C01.h", "C10.g")
 
 	register(&Rule{ID: "C02.a", Doc: "negation table of boolean/comparison operators", Floor: 9, Run: c02a})
 	register(&Rule{ID: "C02.b", Doc: "var comparison rendering table and compare mnemonic; operator domain closure", Floor: 9, Run: c02b})
@@ -1000,6 +1000,111 @@ func c02i(c *Ctx) {
 		}
 		c.Check(bad == "", "immutable/"+typ, "emitter/branch.go", typ+" values are only written while they are being constructed", "a "+typ+" is modified after construction: "+bad+" (the wiring established by the constructors could be altered)")
 	}
+	// "while they are being constructed" ends where the object is handed out: once a chunk or a
+	// brancher made in a function has been put into a table or a list, stored somewhere or given
+	// to a call, the function does not write its fields any more (the table holds the same
+	// object, so a later write changes what was finalised)
+	nObj := 0
+	for _, fn := range c.W.FuncsOf("emitter") {
+		if isTestFunc(c.W, fn) || len(fn.Blocks) == 0 {
+			continue
+		}
+		k := 0
+		instrs(fn, func(in ssa.Instruction) {
+			a, ok := in.(*ssa.Alloc)
+			if !ok || a.Referrers() == nil {
+				return
+			}
+			typ := ""
+			for _, t := range []string{"jump", "breakContext", "leafExpressionBranch", "conditionDestination", "switchBranch", "switchCaseBranch", "chunk"} {
+				if typeIs(a.Type(), "emitter", t) {
+					typ = t
+				}
+			}
+			if typ == "" {
+				return
+			}
+			nObj++
+			var published []ssa.Instruction
+			var writes []*ssa.Store
+			fields := map[int][]*ssa.FieldAddr{}
+			for _, r := range *a.Referrers() {
+				switch y := r.(type) {
+				case *ssa.Store:
+					if y.Val == ssa.Value(a) {
+						// (being put into the argument list of an append — the work list the
+						// function is still filling — is not yet a hand-over; see single assignment)
+						if ia, isIA := y.Addr.(*ssa.IndexAddr); isIA {
+							if arr, isArr := ia.X.(*ssa.Alloc); isArr && arr.Comment == "varargs" {
+								continue
+							}
+						}
+						published = append(published, y)
+					}
+				case *ssa.MapUpdate:
+					if y.Value == ssa.Value(a) || y.Key == ssa.Value(a) {
+						published = append(published, y)
+					}
+				case *ssa.MakeInterface:
+					published = append(published, y)
+				case ssa.CallInstruction:
+					published = append(published, y)
+				case *ssa.FieldAddr:
+					fields[y.Field] = append(fields[y.Field], y)
+					if y.Referrers() == nil {
+						continue
+					}
+					for _, r2 := range *y.Referrers() {
+						if st, isSt := r2.(*ssa.Store); isSt && st.Addr == ssa.Value(y) {
+							writes = append(writes, st)
+						}
+					}
+				}
+			}
+			// single assignment: a field is given its value once
+			for fi, fas := range fields {
+				if typ != "chunk" {
+					break // (a switch branch's default is settled case by case: C03.b)
+				}
+				var sts []*ssa.Store
+				for _, fa := range fas {
+					if fa.Referrers() == nil {
+						continue
+					}
+					for _, r2 := range *fa.Referrers() {
+						if st, isSt := r2.(*ssa.Store); isSt && st.Addr == ssa.Value(fa) {
+							sts = append(sts, st)
+						}
+					}
+				}
+				for _, w1 := range sts {
+					for _, w2 := range sts {
+						if w1 == w2 {
+							continue
+						}
+						if _, found := existsPath(pathQuery{from: after(w1), target: func(in ssa.Instruction) bool { return in == ssa.Instruction(w2) }, stopAt: func(in ssa.Instruction) bool { return in == ssa.Instruction(a) }}); found {
+							k++
+							c.Bad(fmt.Sprintf("%s/field-assigned-twice#%d", c.W.FuncKey(fn), k), c.W.Pos(w2.Pos()), "field "+fieldName(a.Type(), fi)+" of the "+typ+" made at "+c.W.Pos(a.Pos())+" is assigned at "+c.W.Pos(w1.Pos())+" and again at "+c.W.Pos(w2.Pos())+": the wiring a chunk or brancher is built with is not revised afterwards")
+						}
+					}
+				}
+			}
+			for _, w := range writes {
+				for _, pub := range published {
+					if pub.Block() == nil {
+						continue
+					}
+					_, found := existsPath(pathQuery{from: after(pub), target: func(in ssa.Instruction) bool { return in == ssa.Instruction(w) }, stopAt: func(in ssa.Instruction) bool { return in == ssa.Instruction(a) }})
+					if found {
+						k++
+						c.Bad(fmt.Sprintf("%s/written-after-handed-out#%d", c.W.FuncKey(fn), k), c.W.Pos(w.Pos()), "the "+typ+" made at "+c.W.Pos(a.Pos())+" is written ("+pretty(c.term(fn, w.Addr))+") after it was handed out at "+c.W.Pos(pub.Pos())+": whoever holds it sees the change, the state that was finalised is altered")
+						break
+					}
+				}
+			}
+		})
+	}
+	c.Check(nObj >= 20, "immutable/objects-followed", "-", fmt.Sprintf("%d chunk / brancher objects followed from their making to their hand-over", nObj), fmt.Sprintf("only %d chunk / brancher allocations found", nObj))
 }
 
 // exprRoot: the term of the operator expression a comparison renderer works on — a field of
